@@ -1,9 +1,11 @@
 """C09 - Committed database state equals the state the program committed."""
 import session_check as chk
+import session_flags
 
 ID = 'C09'
 LEVEL = 'proof'
 PROPS = ['Props/C09.v', 'Findings/C09.v']
+GEN = [('Gen/SessionFlags.v', session_flags.generate)]     # Tie A: which shape three repaired / repairable pieces of core.py have (read from /repo on every run)
 TRUSTED = [
     'hand-written model coq/Model/Session*.v of pony/orm/core.py (SessionCache indexes / objects_to_save, Attribute.__set__/db_set, '
     'Set/SetInstance, Entity.__init__/_delete_/set/_db_set_/_save_*, EntityMeta._find_in_cache_/_fetch_objects), Stage 1 schema space',
@@ -34,7 +36,7 @@ def search(ctx, deep): return chk.search(ctx, deep, ID)
 def replay(ctx, data): return chk.replay(ctx, data, ID)
 
 
-LEVEL_TEXT = ("Exploration plus partial proof, Stage 1 schema space. EXPLORED on every run: generated histories (creates, updates, deletes, reference and collection changes, flushes, commits, rollbacks, new sessions, ~15 % malformed ops) run on real Pony + SQLite; after every commit / rollback / db_session exit the rows read through a separate connection must equal the committed copy of an independent logical reference state (tools/session_spec.py), and objects that have to be saved must be queued. PROVED (Coq, every schema, every state / history of the executable session model): only commit / leaving the db_session change the committed database - every other operation, incl. rollback, failing operations and reads with their auto-flush, leaves it alone; a failing commit publishes nothing and the next session starts from the last commit; rollback discards database changes and the whole cache; what later sessions see after a rollback depends on the committed database only; a successful commit publishes exactly the flushed transaction; a flush that succeeds leaves no object with status created / modified / marked_to_delete, provided every such object was queued at its _save_pos_ (that premise is checked on the implementation after every operation - oracle queue-not-queued - and not proved for all histories). NOT proved: that the flushed transaction holds exactly the program's objects, values and links (no simulation proof between the session model and the reference state). Two defects are refuted by model witnesses (auto-generated id clash commits an orphan row; an assignment to a seed object is lost), a third (failed Entity.set leaves a created object out of the save queue: it is never inserted) is found on the implementation only, because the model stops at that dirty site.")
+LEVEL_TEXT = ("Exploration plus partial proof, Stage 1 schema space. EXPLORED on every run: generated histories (creates, updates, deletes, reference and collection changes, flushes, commits, rollbacks, new sessions, ~15 % malformed ops) run on real Pony + SQLite; after every commit / rollback / db_session exit the rows read through a separate connection must equal the committed copy of an independent logical reference state (tools/session_spec.py), and objects that have to be saved must be queued. PROVED (Coq, every schema, every state / history of the executable session model): only commit / leaving the db_session change the committed database - every other operation, incl. rollback, failing operations and reads with their auto-flush, leaves it alone; a failing commit publishes nothing and the next session starts from the last commit; rollback discards database changes and the whole cache; what later sessions see after a rollback depends on the committed database only; a successful commit publishes exactly the flushed transaction; a flush that succeeds leaves no object with status created / modified / marked_to_delete, provided every such object was queued at its _save_pos_; that premise - the queue invariant: pending objects have a _save_pos_, the slot there holds them, only pending objects have one - is proved for EVERY history that reached no dirty site (every function of the model; the dirty sites are the known findings queue-not-queued@...), so in a clean history every successful flush saves every object the program created, changed or deleted. NOT proved: that the flushed transaction holds exactly the program's objects, values and links (no simulation proof between the session model and the reference state). Two defects are refuted by model witnesses (auto-generated id clash commits an orphan row; an assignment to a seed object is lost), a third (failed Entity.set leaves a created object out of the save queue: it is never inserted) is found on the implementation only, because the model stops at that dirty site.")
 LEVEL_NOTE = ('Trusted: the reference state (small, but hand-written; it trusts which operations raised), the fuzzer harness, SQLite; for the theorems the Coq kernel and the hand-written session model tied by differential runs. Many-to-many link rows, composite keys, inheritance are outside the generator.')
 TECHNIQUE = 'exploration of generated operation histories on real Pony+SQLite against a logical reference state (property oracle, ddmin shrinking); Coq theorems over the executable session model for the transaction structure / read-your-own-write; vm_compute correspondence model vs implementation'
 DESIGN_REF = 'DESIGN.md section 5, C09 and Appendix A'
